@@ -20,6 +20,11 @@ pub struct Counters {
   /// virtual time (ticks) at which each `defer` factory ran
   pub defer_vts: Vec<u64>,
   pub fut_polls: usize,
+  /// items pulled from counting iterators / polls of counting streams
+  pub iter_pulls: usize,
+  pub stream_polls: usize,
+  /// (filled in by the harness when a snapshot is taken) timers fired so far
+  pub clock_firings: u64,
 }
 
 #[derive(Clone, Debug, PartialEq)]
@@ -49,6 +54,10 @@ pub struct Trace {
   pub status_flags: Vec<(bool, bool)>,
   /// every duration asked from the timer function (ticks), in order
   pub requested: Vec<u64>,
+  /// counters at the moment the probe received its terminal
+  pub counters_at_terminal: Option<Counters>,
+  /// timers fired by the final drain
+  pub drain_firings: usize,
 }
 
 impl Trace {
